@@ -33,6 +33,8 @@ def run(R):
               "portable 64-bit code (feMulGeneric/fePow2kGeneric directly and the purego build), the 32-bit backend and the AVX2 vector "
               "lanes (fieldElement2625x4 Mul / SquareAndNegateD / Reduce / Neg / ConditionalSelect / Split from raw lanes with bit excess 1.5); "
               "TLC evaluates the F_p specification (BigNat) on every event; distinct = distinct (op, backend, inputs)")
+    if os.environ.get("VERIF_C04_ONLY") == "word":     # development aid: the word-level layer alone
+        return word_level(R)
     R.assumptions += ["TLC/SANY, CommunityModules overrides", "BigNat/F25519 layer", "go test -overlay",
                       "sqrt_ratio_i judged by its certificate form, proved equivalent to the declarative contract on the toy fields (MC_Edwards)"]
     # the field-level algorithms of the oracle (sqrt_ratio_i, its certificate form, inversion) against their
@@ -55,12 +57,119 @@ def run(R):
         report_rejects(R, rej, describe, {"module": MODULE, "n": n})
     else:
         R.notes.append("AVX2 not available on this host: vector lanes not exercised limb by limb")
+    word_level(R)
+
+
+SHADOW_RECS = ["C01", "C02", "C05", "C07", "C09", "C12", "C13", "C14", "C15"]
+
+
+def word_level(R):
+    """The word-level layer: toy-scale soundness of the bound calculus (MC_C04w), shadow execution of limb bounds through the
+    real radix-2^51 code (purego build: the rewritten CURRENT field_u64.go + overlay/shadow hooks) under the recorders of the
+    other properties, every distinct transfer instance judged by FieldWords.tla at real scale (Trace_C04w), and the bound
+    vectors replayed as concrete limbs into the real operations (all three 64-bit code paths) for the value-level check."""
+    import subprocess
+    import sys
+    from concurrent.futures import ThreadPoolExecutor
+    from props import ovl
+    quick = R.tier == "quick"
+    r = R.mc("MC_C04w", "MC_C04w_2x3q.cfg" if quick else "MC_C04w_2x3.cfg", timeout=1800)
+    if not quick:
+        R.mc("MC_C04w", "MC_C04w_3x3.cfg", timeout=3600)
+    w = R.mc("MC_C04w", "MC_C04w_weak.cfg", timeout=900, expect_ok=False)
+    if w["invariant"] != "Inv":
+        raise vlib.Inconclusive("self-test: MC_C04w with the carry conditions dropped from Pre must violate Inv:\n" + vlib.tail(w["out"]))
+    # shadow build from the current tree
+    gen = os.path.join(R.scratch, "shadow_field_u64.go")
+    p = subprocess.run([sys.executable, os.path.join(vlib.ROOT, "tools", "shadowgen.py"), vlib.REPO, gen], capture_output=True, text=True)
+    if p.returncode != 0:
+        raise vlib.Inconclusive("shadowgen: " + p.stdout + p.stderr)
+    repl = {os.path.join(vlib.REPO, "internal/field/field_u64.go"): gen,
+            os.path.join(vlib.REPO, "internal/field/zz_verif_shadow.go"): os.path.join(vlib.ROOT, "overlay/shadow/internal/field/zz_verif_shadow.go")}
+    binary = R.build("rec", tags=("purego",), name="rec-shadow", overlay=repl)
+    sdir = tempfile.mkdtemp(prefix="shadow-", dir=R.scratch)
+    senv = {"VERIF_SHADOW_OUT": os.path.join(sdir, "sh")}
+
+    def one(prop):
+        od = tempfile.mkdtemp(prefix="shrec-", dir=R.scratch)
+        R.record(binary, prop=prop, cfg="purego", env=senv, shards=1, outdir=od)
+        return prop
+    with ThreadPoolExecutor(max_workers=len(SHADOW_RECS)) as ex:
+        list(ex.map(one, SHADOW_RECS))
+    # in-package recorders of package curve (projective scalings, torsion, every scalar multiplication routine, Ristretto, tables)
+    tags, env = CONFIGS["purego"]
+    for test, files, envx in [("TestVerifRecC03", ovl.CURVE_FILES, {"VERIF_N": 40 if quick else 300, "VERIF_BIG": 1}),
+                              ("TestVerifRecC10", ovl.CURVE_FILES, {"VERIF_N": 300 if quick else 3000, "VERIF_NTF": 2}),
+                              ("TestVerifRecC11", ovl.CURVE_FILES + ["curve/zz_verif_c11_test.go"], {"VERIF_N": 200 if quick else 2000})]:
+        od = tempfile.mkdtemp(prefix="shovl-", dir=R.scratch)
+        e = dict(env, VERIF_OUT=od, VERIF_SEED=str(R.seed), VERIF_CFG="purego", VERIF_SHARDS="1", **senv)
+        e.update({k: str(v) for k, v in envx.items()})
+        R.overlay_test("curve", files, test, tags=tags, env=e, extra_replace=repl)
+    inst = {}
+    for f in sorted(os.listdir(sdir)):
+        for line in open(os.path.join(sdir, f)):
+            ev = json.loads(line)
+            key = json.dumps([ev["op"], ev["k"], ev["a"], ev["b"], ev["out"], ev.get("what")])
+            inst.setdefault(key, ev)
+    evs = list(inst.values())
+    if len(evs) < 100:
+        raise vlib.Inconclusive("shadow execution produced only %d transfer instances" % len(evs))
+    shards = [[] for _ in range(vlib.NCPU)]
+    for i, ev in enumerate(evs):
+        ev["seq"] = i + 1
+        ev["cfg"] = "purego-shadow"
+        shards[i % vlib.NCPU].append(ev)
+    files = []
+    for i, sh in enumerate(shards):
+        if sh:
+            fp = os.path.join(sdir, "inst-%02d.ndjson" % i)
+            open(fp, "w").write("".join(json.dumps(x) + "\n" for x in sh))
+            files.append(fp)
+
+    def val(limb):
+        return sum(b << (8 * j) for j, b in enumerate(limb))
+    maxbits = {}
+    for ev in evs:
+        m = max([val(l) for l in ev["a"]] + [val(l) for l in ev["b"]])
+        maxbits[ev["op"]] = max(maxbits.get(ev["op"], 0), m.bit_length())
+        k = "shadow:" + ev["op"]
+        R.cov["events_by_op"][k] = R.cov["events_by_op"].get(k, 0) + 1
+    R.cov["word_level"] = {"transfer_instances": len(evs), "max_operand_limb_bits_by_op": maxbits,
+                           "workloads": SHADOW_RECS + ["curve:C03", "curve:C10", "curve:C11"]}
+    for ev in evs:
+        R.distinct.add(hash(json.dumps([ev["op"], ev["k"], ev["a"], ev["b"]])))
+    rej = R.validate("Trace_C04w", files, label="purego/shadow", timeout=3000)
+    for f, ln, ev in rej:
+        if ev["op"] == "exceed":
+            what = ("internal/field (radix 2^51): at %s a concrete limb exceeds the bound derived for it by the word-level specification "
+                    "(limbs %s, bounds %s)" % (ev.get("what"), [val(l) for l in ev["a"]], [val(l) for l in ev["b"]]))
+        else:
+            what = ("internal/field (radix 2^51) %s: on an executed path the operands' limb bounds %s / %s (k=%s) leave the region in which "
+                    "FieldWords.tla shows that no 64/128-bit intermediate wraps (or the result bound %s is below the derived one)" % (
+                        ev["op"], [val(l).bit_length() for l in ev["a"]], [val(l).bit_length() for l in ev["b"]], ev["k"],
+                        [val(l).bit_length() for l in ev["out"]]))
+        R.violation(what, event=vlib.shrink(ev), replay={"module": "Trace_C04w", "word_level": True}, key=None)
+    # G: the bound vectors as concrete limbs through the real operations (assembly, portable 64-bit twice)
+    ext = os.path.join(sdir, "extremal.ndjson")
+    open(ext, "w").write("".join(json.dumps(x) + "\n" for x in evs if x["op"] in ("mul", "add", "sub", "square", "square2", "mul121666", "neg", "tobytes", "pow2k")))
+    for lab in ["default", "purego"]:
+        tags, env = CONFIGS[lab]
+        out = tempfile.mkdtemp(prefix="c04x-", dir=R.scratch)
+        e = dict(env, VERIF_OUT=out, VERIF_SEED=str(R.seed), VERIF_CFG=lab, VERIF_SHARDS=str(vlib.NCPU), VERIF_EXTREMAL=ext)
+        R.overlay_test("internal/field", FILES, "TestVerifRecC04", tags=tags, env=e)
+        xfiles = sorted(os.path.join(out, f) for f in os.listdir(out) if os.path.getsize(os.path.join(out, f)) > 0)
+        R.count_events(xfiles, key=lambda e: "extremal:" + e.get("bk", "?") + ":" + e.get("op", "?"))
+        rej = R.validate(MODULE, xfiles, label=lab + "/extremal", timeout=3000)
+        report_rejects(R, rej, describe, {"module": MODULE, "extremal": True})
 
 
 def replay(R, path):
     body = json.load(open(path))
     rp = body.get("replay", {})
     R.seed = body.get("seed", R.seed)
+    if rp.get("word_level") or rp.get("extremal"):
+        word_level(R)
+        return
     lab = rp.get("cfg") or "default"
     files = record(R, lab, rp.get("n", 2000))
     one = os.path.join(R.scratch, "replay.ndjson")
